@@ -1,6 +1,7 @@
 package main
 
 import (
+	"runtime"
 	"context"
 	"fmt"
 	"go/ast"
@@ -398,7 +399,18 @@ func runSolver(name, file string, timeoutS int) solverRes {
 	return runSolverCtx(context.Background(), name, file, timeoutS)
 }
 
+// solverSlots bounds the number of solver processes that run at the same time to the number of cores: a portfolio
+// of seven solvers for each of sixteen obligations would otherwise oversubscribe the machine several times and
+// turn two-second proofs into timeouts. A solver's timeout starts when it gets its slot.
+var solverSlots = make(chan struct{}, runtime.NumCPU())
+
 func runSolverCtx(parent context.Context, name, file string, timeoutS int) solverRes {
+	select {
+	case solverSlots <- struct{}{}:
+		defer func() { <-solverSlots }()
+	case <-parent.Done():
+		return solverRes{solver: name, status: "cancelled"}
+	}
 	var cmd *exec.Cmd
 	ctx, cancel := context.WithTimeout(parent, time.Duration(timeoutS+2)*time.Second)
 	defer cancel()
